@@ -16,6 +16,8 @@ var registry = map[string]propFunc{}
 
 func register(id string, f propFunc) { registry[id] = f }
 
+var verifRoot = "/verif"
+
 func main() {
 	prop := flag.String("property", "", "property id (C01..C20) or 'all'")
 	tier := flag.String("tier", "quick", "quick|thorough")
@@ -50,6 +52,11 @@ func main() {
 	if err != nil {
 		fmt.Printf("CHECKER-BROKEN cannot load %s: %v\n", *repo, err)
 		os.Exit(2)
+	}
+	verifRoot = *verif
+	if *dump == "consts" {
+		dumpConstants(prog)
+		return
 	}
 	if *dump != "" {
 		doDump(prog, *dump)
